@@ -81,7 +81,7 @@ def describe(base, t_start, skip=(b"a.lzh",)):
     return ";".join(k + "=" + v for k, v in items)
 
 
-def run_extract(lha, tmpdir, archive, opt_tokens, pre=(), answers=b"", as_root=True, cmd="x", timeout=60):
+def run_extract(lha, tmpdir, archive, opt_tokens, pre=(), answers=b"", as_root=True, cmd="x", timeout=60, extra_args=()):
     """returns dict(rc, listing, stdout, stderr, verdict, abs_prefix)"""
     base = tempfile.mkdtemp(prefix="sbx-", dir=tmpdir).encode()
     os.chmod(base, 0o755)
@@ -109,7 +109,7 @@ def run_extract(lha, tmpdir, archive, opt_tokens, pre=(), answers=b"", as_root=T
                 os.setuid(NOBODY)
         e = dict(os.environ); e.update(core.SAN_ENV); e.update({"TZ": "UTC", "LC_ALL": "C"})
         try:
-            r = subprocess.run([lha, arg.encode("latin1"), b"../a.lzh"], cwd=root, input=answers, capture_output=True, env=e,
+            r = subprocess.run([lha, arg.encode("latin1"), b"../a.lzh"] + list(extra_args), cwd=root, input=answers, capture_output=True, env=e,
                                timeout=timeout, preexec_fn=pre_fn)
             rc, so, se = r.returncode, r.stdout, r.stderr.decode(errors="replace")
             verdict = "ok"
